@@ -38,7 +38,24 @@ ASSUMPTIONS = [
     "sympy's automatic simplification at construction time (a-a -> 0, a*a -> a**2) is not code under test; names of an expression "
     "are the free symbols of the constructed object",
 ]
-SENSITIVITY: list = []
+SENSITIVITY = [
+    "resolver_mul_fast_path_adds",
+    "resolver_pow_fast_path_swaps_base_and_exponent",
+    "resolver_chain_stops_after_one_hop",
+    "resolver_compose_drops_symbols_only_second_resolver_knows",
+    "zip_len_uses_max",
+    "product_first_factor_fastest",
+    "sweep_negative_index_off_by_one",
+    "ziplongest_repeats_first_instead_of_last",
+    "moment_resolve_returns_self_unless_last_op_changed",
+    "flatten_reuses_a_taken_symbol",
+    "simulate_sweep_reuses_state_for_second_to_last_resolver",
+    "circuit_operation_with_params_skips_own_resolver",
+    "tagged_operation_does_not_resolve_tags",
+    "sample_reports_first_key_value_in_every_param_column",
+    "to_sweeps_dict_keeps_only_first_point",
+    "linspace_interpolates_from_stop",
+]
 
 ZZ = "zz"  # name of a symbol nothing uses
 
@@ -160,7 +177,7 @@ def _pow_partial(objs, numeric: set, submap=None, rounds=1) -> bool:
 @st.composite
 def _expr_value_case(draw, funcs=False):
     cplx = draw(st.integers(0, 5)) == 0
-    cyc = draw(st.integers(0, 11)) == 0
+    cyc = draw(st.integers(0, 39 if funcs else 11)) == 0  # (a cycle through sin/exp costs sympy seconds per case)
     vals = draw(CG.resolver_tables(chains=True, cycle=cyc, complex_ok=cplx, f32=True))
     if cplx and not any(v[0] in ("c", "npc") for v in vals.values()):
         num = [n for n, v in vals.items() if v[0] not in ("expr", "str")]
@@ -205,11 +222,16 @@ def oracle_expr_value(r):
         "f32": M.uses_float32(vals), "keyform": r["keyform"], "form": r["form"],
     }
     if expect_cycle:
+        zero = any(M.value_to_python(v) == 0 for v in vals.values() if M.value_to_python(v) is not None)
         for what, f in (("value_of", lambda: res.value_of(expr)), ("resolve_parameters", lambda: cirq.resolve_parameters(expr, arg))):
             try:
                 got = f()
             except RecursionError:
                 continue
+            if zero:
+                # a factor that evaluates to 0 can make sympy drop the cyclic symbol before it is ever looked up
+                # (sin(sin(c)*(0.0 - b)) with c = 0): "the loop is detected" is only promised when the loop is reached
+                raise Reject("cycle behind a zero factor")
             raise Violation(f"{what}: resolver with a symbol cycle returned {got!r} instead of raising RecursionError"[:300])
         return labels
     tol = _tol(stat, M.uses_float32(vals))
@@ -514,6 +536,9 @@ def _gate_prepare(r):
     if r["wrap"] in COP and any(isinstance(o, sympy.Basic) and not o.free_symbols for o in map(M.to_sympy, CG.case_trees(case))):
         # documented caveat of the protocol: sympy constants count as "parameterized" but have no names to resolve
         raise Reject("sympy constant without symbols inside a CircuitOperation")
+    if r["wrap"] in COP and (_degenerate(CG.case_trees(case)) or _zero_pow_after_pr(r)):
+        # x**0.0 is folded to a sympy 1 as soon as the expression is rebuilt -> same caveat (constant inside a sub-circuit)
+        raise Reject("power with exponent zero inside a CircuitOperation")
     g_sym = CG.build_gate(case, "sym")
     qs = [cirq.LineQubit(i) for i in r["q"]]
     return case, g_sym, g_num, qs, lookup, stat, trees
@@ -654,6 +679,22 @@ def _expected_names(r):
     return inner
 
 
+def _zero_pow_after_pr(r):
+    """cop_pr: the one-step substitution produces a power with exponent zero (sympy folds it only on some rebuild paths)."""
+    if r["wrap"] != "cop_pr":
+        return False
+    submap = {}
+    for n, v in r.get("pr", {}).items():
+        submap[sympy.Symbol(n)] = sympy.Symbol(v[1]) if v[0] == "str" else (M.to_sympy(v[1]) if v[0] == "expr" else M.value_to_python(v))
+    for t in CG.case_trees(r["case"]):
+        o = M.to_sympy(t)
+        if isinstance(o, sympy.Basic):
+            o2 = o.subs(submap, simultaneous=True)
+            if isinstance(o2, sympy.Basic) and any(isinstance(n, sympy.Pow) and n.args[1].is_zero for n in sympy.preorder_traversal(o2)):
+                return True
+    return False
+
+
 def _sym_constants(r):
     """A slot holds a sympy object without free symbols (documented: may report is_parameterized although names are empty)."""
     ts = CG.case_trees(r["case"]) + ([r["tagx"]] if r["wrap"] == "ptag" else [])
@@ -696,7 +737,10 @@ def oracle_gate_names(r):
     what = f"{fam} via {r['wrap']}"
     exp = _expected_names(r)
     got = set(cirq.parameter_names(obj))
-    if got != exp and not _degenerate(trees):
+    degenerate = _degenerate(trees) or _zero_pow_after_pr(r)
+    if degenerate:  # sympy may or may not fold x**0.0 when an expression is rebuilt: take the names as reported
+        exp = got
+    if got != exp:
         raise Violation(f"parameter_names {sorted(got)} but the symbolic slots hold {sorted(exp)}\n  case: {what}")
     ip = cirq.is_parameterized(obj)
     if exp and not ip:
@@ -708,7 +752,7 @@ def oracle_gate_names(r):
     labels["pow_partial"] = _gate_pow_partial(r)
     # unrelated resolver: equal object back, names unchanged
     same = cirq.resolve_parameters(obj, {ZZ: 0.5})
-    if set(cirq.parameter_names(same)) != exp and not _degenerate(trees):
+    if set(cirq.parameter_names(same)) != exp and not degenerate:
         raise Violation(f"resolving an unrelated symbol changed parameter_names to {sorted(cirq.parameter_names(same))}\n  case: {what}")
     # partial numeric resolution
     sub = [n for n in r.get("sub", []) if M.value_to_python(r["vals"][n]) is not None]
@@ -722,7 +766,7 @@ def oracle_gate_names(r):
     if not mid_names <= exp:
         raise Violation(f"partial resolution introduced symbols {sorted(mid_names - exp)}\n  case: {what}")
     zero = any(M.value_to_python(v) == 0 for v in r1.values())
-    if not zero and not _degenerate(trees) and r["wrap"] != "cop_pr":
+    if not zero and not degenerate and r["wrap"] != "cop_pr":
         want = set()
         for t in trees:
             o = M.to_sympy(t)
@@ -987,6 +1031,8 @@ def _reject_const_in_cop(rc):
                 obj = M.to_sympy(t)
                 if isinstance(obj, sympy.Basic) and not obj.free_symbols:
                     raise Reject("sympy constant without symbols inside a CircuitOperation")
+            if _degenerate(CG.case_trees(o)):
+                raise Reject("power with exponent zero inside a CircuitOperation")
 
 
 def _points_to_tables(points):
@@ -1206,6 +1252,14 @@ def oracle_flatten(r):
 @st.composite
 def _circuit_case(draw, with_f=False):
     c = draw(CG.sym_circuits(max_w=3, max_ops=6, p_sym=0.5, leaves=4, min_ops=1))
+    if draw(st.integers(0, 5)) == 0:
+        # aim at Moment._resolve_parameters_' "unchanged -> return self" short-cut: only the last operation is symbolic
+        gate_ops = [o for o in c["ops"] if "m" not in o]
+        if len(gate_ops) >= 2 and gate_ops[-1].get("slots"):
+            for o in gate_ops[:-1]:
+                o["slots"] = {}
+            for o in gate_ops:
+                o["ins"] = 0
     r = {"c": c, "vals": draw(CG.resolver_tables(chains=draw(st.booleans()), f32=False)),
          "sub": [n for n in CG.SYMS if draw(st.booleans())], "keyform": draw(st.sampled_from(["str", "sym", "mixed"]))}
     if with_f:
@@ -1378,22 +1432,35 @@ def oracle_commute(r):
 
 # =========================================================================================== registry
 
+def _collapses(trees, submap, known: set) -> bool:
+    """Some slot keeps an unresolved symbol syntactically, but the substitution makes all of them cancel (0.0*c + 1.0): the
+    Add/Mul fast paths of value_of then return a sympy number object."""
+    for t in trees:
+        o = M.to_sympy(t)
+        if isinstance(o, sympy.Basic) and not _free_names(o) <= known:
+            try:
+                if not _free_names(o.subs(submap, simultaneous=True)):
+                    return True
+            except Exception:
+                return True
+    return False
+
+
 def _collapse_in_cop(sub, r):
     if sub not in ("gate_unitary", "gate_names", "cop_protocol") or r["wrap"] not in COP:
         return False
-    if sub == "gate_names" and any(M.value_to_python(r["vals"][n]) == 0 for n in r.get("sub", []) if n in r["vals"]):
-        return True
+    trees = CG.case_trees(r["case"])
+    if sub == "gate_names":
+        names = [n for n in r.get("sub", []) if n in r["vals"] and M.value_to_python(r["vals"][n]) is not None]
+        if _collapses(trees, {sympy.Symbol(n): M.value_to_python(r["vals"][n]) for n in names}, set(names)):
+            return True
     if r["wrap"] != "cop_pr":
         return False
     pr = r.get("pr", {})
     numeric = {n for n, v in pr.items() if M.value_to_python(v) is not None}
     submap = {sympy.Symbol(n): (M.value_to_python(v) if n in numeric else (sympy.Symbol(v[1]) if v[0] == "str" else M.to_sympy(v[1])))
               for n, v in pr.items()}
-    for t in CG.case_trees(r["case"]):
-        o = M.to_sympy(t)
-        if isinstance(o, sympy.Basic) and not _free_names(o) <= numeric and not _free_names(o.subs(submap, simultaneous=True)):
-            return True
-    return False
+    return _collapses(trees, submap, numeric)
 
 
 def _rc(r):
@@ -1404,8 +1471,9 @@ def _circuit_collapse(sub, r):
     rc = _rc(r)
     if rc is None or sub != "circuit_resolve":
         return False
-    zero = any(M.value_to_python(r["vals"].get(n, ["expr"])) == 0 for n in r.get("sub", []))
-    return zero and any(o.get("cop") and o.get("slots") for o in rc["ops"] if "m" not in o)
+    names = [n for n in r.get("sub", []) if M.value_to_python(r["vals"].get(n, ["expr"])) is not None]
+    trees = [t for o in rc["ops"] if "m" not in o and o.get("cop") for t in CG.case_trees(o)]
+    return _collapses(trees, {sympy.Symbol(n): M.value_to_python(r["vals"][n]) for n in names}, set(names))
 
 
 KNOWN_FEATURES = {
@@ -1442,7 +1510,7 @@ def uncovered():
 SUBCHECKS = [
     SubCheck("expr_value", _expr_value_case(), oracle_expr_value, quick=2000, thorough=80000, shards_quick=4, shards_thorough=16,
              essential={"has_pow": 0.1, "chain=2": 0.01, "cycle": 0.003, "complex": 0.03}),
-    SubCheck("expr_funcs", _expr_value_case(funcs=True), oracle_expr_value, quick=200, thorough=30000, shards_quick=1,
+    SubCheck("expr_funcs", _expr_value_case(funcs=True), oracle_expr_value, quick=200, thorough=30000, shards_quick=2,
              shards_thorough=8, essential={"funcs": 0.2}),
     SubCheck("expr_compose", _compose_case(), oracle_expr_compose, quick=1600, thorough=60000, shards_quick=4, shards_thorough=16,
              essential={"mode=nonrec": 0.1, "mode=chain": 0.1}),
@@ -1450,9 +1518,9 @@ SUBCHECKS = [
     SubCheck("gate_names", _gate_case(partial=True), oracle_gate_names, quick=1200, thorough=50000, shards_quick=4, shards_thorough=16,
              essential={"partial": 0.1}),
     SubCheck("cop_protocol", _gate_case(wraps=list(COP), families=[f for f in CG.sym_families() if f not in ("RandomGate", "Wait")]),
-             oracle_cop_protocol, quick=400, thorough=15000, shards_quick=1, shards_thorough=8),
+             oracle_cop_protocol, quick=400, thorough=15000, shards_quick=4, shards_thorough=8),
     SubCheck("circuit_resolve", _circuit_case(), oracle_circuit_resolve, quick=1000, thorough=40000, shards_quick=4, shards_thorough=16,
-             essential={"only_last_op_of_a_moment_changes": 0.03}),
+             essential={"only_last_op_of_a_moment_changes": 0.02}),
     SubCheck("sweeps", _sweep_case(), oracle_sweeps, quick=2400, thorough=100000, shards_quick=4, shards_thorough=16,
              essential={"has_ziplongest": 0.05, "empty": 0.03, "single": 0.05, "contract_reject": 0.02, "depth=2": 0.1}),
     SubCheck("sweep_repr", _sweep_case(bad_rate=0), oracle_sweep_repr, quick=600, thorough=30000, shards_quick=2, shards_thorough=8),
